@@ -8,7 +8,10 @@
  R4 prediction = round(maximum(p * last + last, N.results_e)) with p the fitted model applied to the nonreporting rows
     (design rows n_train .. n_train + n_test, holdout form);
  R5 constant folding of Featurizer.__init__ / prepare_data with no features and no fixed effects: the design has the single
-    column 'intercept' for fit and holdout.
+    column 'intercept' for fit and holdout;
+ R6 the solver call of fit_model, bound against the INSTALLED solver's signature: taus = the caller's tau, weights = the caller's
+    weights, lambda_ / fit_intercept = the model's own settings, and the intercept is not regularised (a penalised intercept of an
+    intercept-only design is not the weighted median once lambda_ > 0).
 Not decided: that an intercept-only tau = 0.5 quantile regression is the weighted median (solver semantics), uniqueness.
 """
 from __future__ import annotations
@@ -206,3 +209,31 @@ def check(ctx):
     okret = rt[0] == "sub" and rt[2] in (psum.attrs.get("complete_features"), ("attr", SELF, "complete_features"))
     ctx.ob("C05.R5.returns", f"{pd_.qualname}|prepare_data returns the complete feature columns", okret, pd_.where(),
            "prepare_data returns df[self.complete_features]" if okret else f"prepare_data returns {ir.show(rt, maxdepth=3)}")
+
+    # ---- R6 the fit itself reaches the solver as it was asked for --------------------------------------------------
+    # fit_model hands (X, y, tau, weights, lambda, intercept flag) to the third-party solver. Bound against the installed signature, the
+    # quantile must be the caller's tau, the weights the caller's weights, fit_intercept the model's add_intercept, and the INTERCEPT MUST
+    # NOT BE REGULARISED: with an intercept-only design and lambda_ > 0 a penalised intercept is pulled towards 0 and the common factor is
+    # no longer 1 + weighted median.
+    from .c20 import solver_fit_bindings
+    calls, ff = solver_fit_bindings(ctx)
+    ctx.sites("C05.R6", len(calls), 1, "solver.fit calls in fit_model")
+    fs_ = ctx.builder().summarize(ff)
+    for c_ in calls:
+        bd = c_["bound"]
+        # add_intercept is the constant True in every model class (R3), so the folded value True is the same thing
+        want = {"taus": [("param", "tau")], "regularize_intercept": [("const", False)],
+                "fit_intercept": [("attr", SELF, "add_intercept"), ("const", True)], "lambda_": [("attr", SELF, "lambda_")]}
+        probs = list(c_["problems"])
+        for k_, vs_ in want.items():
+            if k_ in bd and bd[k_] not in vs_:
+                probs.append(f"{k_} = {ir.show(bd[k_], maxdepth=3)} (expected {ir.show(vs_[0])})")
+            elif k_ not in bd:
+                probs.append(f"{k_} is not bound")
+        wv = bd.get("weights")
+        if wv is None or not any(x == ("param", "weights") for x in ir.walk(wv)):
+            probs.append(f"weights = {ir.show(wv, maxdepth=3) if wv else 'missing'} (expected the caller's weights)")
+        ctx.ob("C05.R6.solver-call", f"{ff.qualname}|{c_['kind']} fit: quantile, weights, intercept as requested, intercept not regularised",
+               not probs, ff.where(c_["node"]),
+               "bound against the installed solver signature: taus=tau, weights=weights, lambda_=self.lambda_, fit_intercept=self.add_intercept, "
+               "regularize_intercept=False" if not probs else "; ".join(probs))
